@@ -6,4 +6,4 @@ unset IDPYOIDC_VERIF
 D=$(mktemp -d /var/tmp/idpy-baseline.XXXXXX)
 trap 'rm -rf "$D"' EXIT
 cp -r /repo/. "$D"/
-cd "$D" && PYTHONPATH="$D/src" /venv/bin/python -m pytest -ra -q -p no:cacheprovider --timeout=900 --continue-on-collection-errors "$@"
+cd "$D" && PYTHONPATH="$D/src" /venv/bin/python -m pytest -ra -q --color=no -p no:cacheprovider --timeout=900 --continue-on-collection-errors "$@"
